@@ -76,6 +76,10 @@ class Interp:
         self.unwinding = []       # list of (label, residual-condition) from symbolic while loops
         self.handlers = {}        # primitive name -> fn(interp, eqn, invals) -> list of outs
         self.named_calls = {}     # jit name -> fn(interp, eqn, invals) -> list of outs
+        # jnp.hypot is a jitted overflow-safe routine (max/min/inf tests); over the reals it is sqrt(a^2+b^2)
+        self.named_calls["hypot"] = lambda it, e, iv: (
+            [it.ew(lambda a, b: it.dom.sqrt(it.dom.mul(a, a) + it.dom.mul(b, b)), *iv)]
+            if (any(is_sym(x) for x in iv) or it.dom.exact_concrete) else it.eval_closed(e.params["jaxpr"], iv))
 
     # ------------------------------------------------------------------ helpers
     def obj(self, a):
